@@ -3,8 +3,9 @@ PoolSM — osmium::thread::Pool (include/osmium/thread/pool.hpp) on top of Queue
 
   m_work_queue : Queue<function_wrapper>   = a QueueSM over `Task`
   function_wrapper                         = `Task.job id out` (a packaged_task: running it
-                                             stores `out` — value or exception — in the shared
-                                             state of its future) or `Task.stop`
+                                             stores `out` — value or exception OF ANY TYPE, see
+                                             `Outcome` — in the shared state of its future; the
+                                             wrapper is made explicit in `xstep?` below) or `Task.stop`
                                              (`function_wrapper{0}`, impl_base::call returns true)
   worker_thread()   pool.hpp:136-147       loop: wait_and_pop (QueueSM pop events of the worker)
                                              → `workerGot w b` (hook "worker-got", b = `task ?`)
@@ -26,10 +27,28 @@ namespace Osmium.PoolSM
 
 open Osmium.Mon Osmium
 
+/-- How the function handed to submit() ends when it is called (its OUTCOME).  It returns
+    (`void` functions: value 0), or it throws: an object whose class is derived from
+    std::exception (`cls` names the class: std::runtime_error, a user class, …), or an object of
+    ANY other type (`ty`: int, std::string, a struct of some other library, …).  `payload` is
+    what the thrown object carries (what() / its members).  The C++ language lets a function
+    throw any copyable type; the property ("its result or exception arrives in the future")
+    quantifies over all of them. -/
 inductive Outcome where
   | value (v : Nat)
-  | exc (code : Nat)
+  | stdExc (cls : Nat) (payload : Nat)
+  | otherExc (ty : Nat) (payload : Nat)
   deriving DecidableEq, Repr
+
+/-- the function threw -/
+def Outcome.isException : Outcome → Bool
+  | .value _ => false
+  | _ => true
+
+/-- `catch (const std::exception&)` matches the thrown object -/
+def Outcome.isStdException : Outcome → Bool
+  | .stdExc _ _ => true
+  | _ => false
 
 inductive Task where
   | job (id : Nat) (out : Outcome)
@@ -169,5 +188,74 @@ def step? (c : Cfg) (s : State) : Ev → Option State
     if s.future id = some o then some s else none
 
 def machine (c : Cfg) : Machine State Ev := { init := init, step? := step? c }
+
+/-! ## the task wrapper made explicit
+
+`submit()` (pool.hpp:223-230) wraps the function in a `std::packaged_task`; the worker calls it
+through `function_wrapper::impl_type<F>::call()` (`m_functor(); return false;`,
+function_wrapper.hpp) from `worker_thread()` (`if (task && task()) return;`, pool.hpp:136-147).
+Neither `call()` nor `worker_thread()` has a handler, so whatever leaves the wrapper's
+`operator()` leaves the thread function: std::terminate().  `taskRun` of `step?` above is the
+step for `std::packaged_task`, whose `operator()` stores the result OR ANY exception in the
+shared state ([futures.task.members]) and returns normally.  `xstep?` is the same machine with
+the wrapper's handler as a parameter, so that "every exception type is transferred, the worker
+goes on" is a theorem about `Wrapper.packagedTask` (Lemmas/PoolSMOutcome.lean) and not a
+silent assumption: for a wrapper that lets some thrown type through, the run reaches
+`terminated`. -/
+
+/-- the `try { … } catch` of the callable that submit() puts into the work queue: which thrown
+    objects does its handler catch (and store in the shared state) -/
+structure Wrapper where
+  catches : Outcome → Bool
+
+/-- `std::packaged_task<R()>::operator()`: `catch (...)` -/
+def Wrapper.packagedTask : Wrapper := ⟨fun _ => true⟩
+
+/-- a wrapper whose handler is `catch (const std::exception&)` -/
+def Wrapper.stdExceptionOnly : Wrapper := ⟨Outcome.isStdException⟩
+
+/-- what one call of the wrapper does: what it writes into the shared state of the future and
+    which exception leaves its `operator()` -/
+structure CallResult where
+  stored : Option Outcome
+  escapes : Option Outcome
+  deriving DecidableEq, Repr
+
+def Wrapper.call (wr : Wrapper) (out : Outcome) : CallResult :=
+  match out with
+  | .value v => ⟨some (.value v), none⟩
+  | e => if wr.catches e then ⟨some e, none⟩ else ⟨none, some e⟩
+
+structure XState where
+  base : State
+  /-- std::terminate(): exception `e` left the thread function of worker `w` running job `id` -/
+  terminated : Option (Tid × Nat × Outcome)
+
+def xinit : XState := ⟨init, none⟩
+
+/-- the pool machine for an arbitrary task wrapper: as `step?`, but running a job goes through
+    `Wrapper.call`; an escaping exception ends the process (no further step) -/
+def xstep? (wr : Wrapper) (c : Cfg) (x : XState) (e : Ev) : Option XState :=
+  if x.terminated.isSome then none else
+  match e with
+  | .taskRun w id =>
+    match x.base.wpc w with
+    | .running id' out =>
+      if id = id' then
+        match (wr.call out).escapes with
+        | none =>
+          some ⟨{ x.base with wpc := setPc x.base.wpc w .loop,
+                              runCount := setPc x.base.runCount id (x.base.runCount id + 1),
+                              future := setPc x.base.future id (wr.call out).stored }, none⟩
+        | some ex =>
+          some ⟨{ x.base with runCount := setPc x.base.runCount id (x.base.runCount id + 1) }, some (w, id, ex)⟩
+      else none
+    | _ => none
+  | e => (step? c x.base e).map fun s' => ⟨s', none⟩
+
+def xmachine (wr : Wrapper) (c : Cfg) : Machine XState Ev := { init := xinit, step? := xstep? wr c }
+
+/-- worker threads of the pool whose thread function has not returned -/
+def liveWorkers (c : Cfg) (s : State) : List Tid := c.workers.filter fun w => decide (s.wpc w ≠ .exited)
 
 end Osmium.PoolSM
